@@ -21,7 +21,7 @@ RULE = ("schemas with nested schemas, config types, lists of schemas / config ty
         "cincoconfig.ValidationError (a ValueError), ref_path == the declared path (a.b[2].c, d[key]) and a message "
         "starting with that path (plus ' (name)' for a friendly name); non-trivial = >= 3 rejections judged over >= 2 "
         "routes; distinct = distinct (schema, probes)")
-REQUIRED = ("sections_nested_in_a_section_of_the_same_name", "cases_with_library_warnings_as_errors", "duplicate_key_documents", "moved_object_probes:list-item", "moved_object_probes:section", "schemas_with_premounted_fragments", "object_item_probes", "reordered_list_probes", "pos:dict-key", "rejections_judged", "route:attr", "route:dotted", "route:ctor", "route:load_tree", "route:loads", "pos:nested",
+REQUIRED = ("rejections_by_validator_callback:fail-empty", "schemas_with_sections_named_like_config_methods", "sections_nested_in_a_section_of_the_same_name", "cases_with_library_warnings_as_errors", "duplicate_key_documents", "moved_object_probes:list-item", "moved_object_probes:section", "schemas_with_premounted_fragments", "object_item_probes", "reordered_list_probes", "pos:dict-key", "rejections_judged", "route:attr", "route:dotted", "route:ctor", "route:load_tree", "route:loads", "pos:nested",
             "pos:ctype", "pos:list-item", "pos:dict-entry", "pos:list-scalar", "pos:subconfig-slot", "friendly_names_judged",
             "after_prior_load")
 ASSUMPTIONS = ["unknown keys (AttributeError) and non-map top-level documents are not 'a value for a declared field'",
@@ -29,6 +29,9 @@ ASSUMPTIONS = ["unknown keys (AttributeError) and non-map top-level documents ar
                "for a rejected scalar item of a typed list the offending field is the list field itself"]
 FMT_FOR_LOADS = ["json", "yaml", "pickle", "bson", "xml"]
 BAD_WILD = [{"a": 1}, [1], 1.5, float("inf"), 10**30, b"xy", Opaque(), True, "", "x y z !", -1, (1, 2), None]
+
+
+SENTINEL = {"int": "424242", "port": "4242", "float": "4242.5", "str": "reject-me", "host": "reject.me"}
 
 
 def generate(rng, ctx):
@@ -49,6 +52,14 @@ def generate(rng, ctx):
                     rng.choice(kids)["key"] = nd["key"]
                     same_name = 1
                     break
+    # sections named like methods of the Config class: reachable by item / dotted path (attribute access finds the method)
+    if rng.random() < 0.25:
+        secs = [nd for p0, nd in spec.walk(schema) if nd["kind"] in ("schema", "ctype") and "[]" not in p0 and "." not in p0]
+        taken = {ch["key"] for ch in schema["fields"]}
+        free = [n for n in ("save", "load", "validate", "dumps", "loads", "to_tree", "load_tree") if n not in taken]
+        if secs and free:
+            rng.choice(secs)["key"] = rng.choice(free)
+            schema["method_like_names"] = True
     # include fields (at the root and in a section); the file they name does not exist
     incs = []
     if rng.random() < 0.35:
@@ -86,6 +97,13 @@ def generate(rng, ctx):
             tw["params"] = {}
         kids.append(tw)
         twins += 1
+    # field validator callbacks that reject everything, some of them with an exception that carries no message
+    for p0, nd in spec.walk(schema):
+        if nd["kind"] == "field" and nd["family"] in SENTINEL and rng.random() < 0.1:
+            # the callback rejects one particular (otherwise acceptable) value only
+            keep = {k: v for k, v in nd["params"].items() if k in ("name", "required")}
+            nd["params"] = dict(keep, validator="%s@%s" % (rng.choice(["fail", "fail-empty", "assert-empty", "keyerror-empty", "multiline"]),
+                                                           SENTINEL[nd["family"]]))
     env = gen.GEN_ENV
     targets = enumerate_targets(schema)
     rng.shuffle(targets)
@@ -93,6 +111,15 @@ def generate(rng, ctx):
     for tgt in targets[: rng.randrange(3, 10 if thorough else 7)]:
         nd = tgt["node"]
         bad = None
+        forced = nd.get("params", {}).get("validator") if nd.get("kind") == "field" and tgt["pos"] in ("root", "nested", "ctype", "list-item") else None
+        if forced and rng.random() < 0.7:
+            # the one value the callback rejects (it passes the field's own checks)
+            bad = {"int": 424242, "port": 4242, "float": 4242.5, "str": "reject-me", "host": "reject.me"}[nd["family"]]
+            forced = forced.split("@")[0]
+            probes.append({"pos": tgt["pos"], "path": tgt["path"], "bad": bad, "routes": ["attr", "dotted"], "index": rng.choice([0, 1]),
+                           "nitems": rng.choice([1, 2]), "equal_items": False, "key": "k1", "fmt": "json", "prior_load": False, "reorder": None,
+                           "object_items": False, "moved": False, "by_callback": forced})
+            continue
         for _ in range(15):
             if tgt["pos"] == "subconfig-slot":
                 cand = rng.choice(BAD_WILD)
@@ -109,7 +136,8 @@ def generate(rng, ctx):
                     continue
                 if cand is None or isinstance(cand, Opaque):
                     continue
-            if nd["family"] in ("list", "dict") and tgt["pos"] not in ("dict-entry", "dict-key", "list-scalar") and isinstance(cand, (list, dict, tuple)):
+            if nd["family"] in ("list", "dict") and tgt["pos"] not in ("dict-entry", "dict-key", "list-scalar") and (
+                    isinstance(cand, (list, dict, tuple)) or hasattr(cand, "keys")):
                 continue  # a container with a bad entry is reported at the entry: covered by the entry positions
             ok = model.accepts(label_node, cand, env)[0]
             if ok is False:
@@ -209,6 +237,8 @@ def run(case, ctx, res):
         res.count("schemas_with_premounted_fragments")
     if case.get("same_name"):
         res.count("sections_nested_in_a_section_of_the_same_name")
+    if case["schema"].get("method_like_names"):
+        res.count("schemas_with_sections_named_like_config_methods")
     import warnings
 
     with warnings.catch_warnings():
@@ -231,6 +261,8 @@ def _run(case, ctx, res, cc, env, rng, judged, routes_seen):
                 res.count("reordered_list_probes")
             if feat == "duplicate-key-document":
                 res.count("duplicate_key_documents")
+            if pr.get("by_callback") and err is not None:
+                res.count("rejections_by_validator_callback:" + pr["by_callback"])
             if "moved-from-sibling" in feat:
                 res.count("moved_object_probes:" + feat.split(":")[0])
             if feat.endswith(":object-items") or pr.get("object_items"):
